@@ -557,18 +557,23 @@ def _writeback_sites(ctx: Ctx):
     return out
 
 
-def _guard_is_setup_once(test_chain) -> Tuple[bool, str]:
-    srcs = [norm_src(t) for t, v in test_chain if v]
-    flat = " and ".join(srcs)
+def _guard_is_setup_once(test_chain) -> Tuple[Optional[bool], str]:
+    """(verdict, shown): True = exactly 'setup node and not yet recorded'; False = recognisably weaker/stronger; None = unknown shape."""
     parts = []
     for t, v in test_chain:
         if not v:
-            return False, flat
+            return False, " and ".join(norm_src(x) for x, _ in test_chain) + " (else-branch)"
         parts += [norm_src(x) for x in (t.values if isinstance(t, ast.BoolOp) and isinstance(t.op, ast.And) else [t])]
-    ok = len(parts) == 2 and any(p.endswith(".setup") for p in parts) and any(
-        p.startswith("not ") and p.endswith(".executed(self.results)") for p in parts)
-    alt = len(parts) == 2 and any(p.endswith(".setup") for p in parts) and any(" not in self.results" in p for p in parts)
-    return ok or alt, " and ".join(parts)
+    shown = " and ".join(parts)
+    setup_t = [p for p in parts if p.endswith(".setup") and not p.startswith("not ")]
+    exec_ok = [p for p in parts if (p.startswith("not ") and p.endswith(".executed(self.results)")) or p.endswith(" not in self.results")]
+    exec_any = [p for p in parts if "self.results" in p]
+    extra = [p for p in parts if p not in setup_t and p not in exec_any]
+    if not setup_t or not exec_any or extra:
+        return False, shown
+    if len(exec_ok) == len(exec_any) == 1 and len(setup_t) == 1:
+        return True, shown
+    return None, shown
 
 
 def own_writeback(ctx: Ctx) -> RuleResult:
@@ -577,6 +582,8 @@ def own_writeback(ctx: Ctx) -> RuleResult:
     r.require(len(sites) >= 2, f"setup write-back sites: found {len(sites)} (expected one per DAG flavour)")
     for f, n, ch in sites:
         ok, shown = _guard_is_setup_once(ch)
+        if ok is None:
+            raise Undecided(f"{f.short}: write-back guard in an unrecognised form: {shown}")
         r.ob(ok, {"write-back": norm_src(n), "in": f.short, "guard": shown})
         if not ok:
             r.violate(f"{f.short}: write into the DAG's results guarded by '{shown}'", f.loc(n),
